@@ -51,8 +51,8 @@ pub fn rand_term(rng: &mut Rng, nb: usize, star: bool, depth: usize) -> ST {
     match k {
         0..=4 => bn(&format!("b{}", rng.below(nb.max(1)))),
         5 | 6 => iri(*rng.pick(&["http://ex/a", "http://ex/b", "http://ex/p"])),
-        7 => lit_lang("l", *rng.pick(&["en", "EN"])),
-        8 => lit_dt(*rng.pick(&["1", "x"]), &format!("{XSD}string")),
+        7 => lit_lang("l", *rng.pick(&["en", "EN", "fr"])),
+        8 => lit_dt(*rng.pick(&["1", "x"]), &format!("{XSD}{}", *rng.pick(&["string", "string", "integer"]))),
         9 => iri("http://ex/p"),
         _ => quoted(rand_term(rng, nb, star, depth + 1), iri("http://ex/p"), rand_term(rng, nb, star, depth + 1)),
     }
@@ -119,8 +119,61 @@ fn results(d1: &[Q], d2: &[Q]) -> (Vec<bool>, Vec<String>) {
         names.push("graphs Vec/HashSet (d1,d2)".into());
         res.push(isomorphic_graphs(&g2, &g1).unwrap());
         names.push("graphs Vec/HashSet (d2,d1)".into());
+        // the same triples seen through views of a LARGER dataset (their size hints are those of the whole dataset): one named graph,
+        // a partial union of two named graphs, and a graph wrapped as a dataset
+        // (a triple sits in ONE of the two graphs of the partial union: views do not deduplicate, and datasets are sets here)
+        let (ga, gb, gc, gall): (ST, ST, ST, ST) = (iri("http://ex/view-a"), iri("http://ex/view-b"), iri("http://ex/view-c"), iri("http://ex/view-all"));
+        let mut big: Vec<Spog<ST>> = vec![];
+        for (i, q) in d1.iter().enumerate() {
+            big.push((q.0.clone(), Some(if i % 2 == 0 { ga.clone() } else { gb.clone() })));
+            big.push(([iri("http://ex/noise"), iri("http://ex/p"), q.0[2].clone()], Some(gc.clone())));
+            big.push((q.0.clone(), Some(gall.clone())));
+        }
+        let big: Vec<Spog<ST>> = big.into_iter().fold(vec![], |mut acc, q| {
+            if !acc.iter().any(|x| same_quad(x, &q)) {
+                acc.push(q);
+            }
+            acc
+        });
+        let va = big.graph(Some(gall.clone()));
+        res.push(isomorphic_graphs(&va, &g2).unwrap());
+        names.push("graphs DatasetGraph-view/HashSet (d1,d2)".into());
+        res.push(isomorphic_graphs(&g2, &va).unwrap());
+        names.push("graphs DatasetGraph-view/HashSet (d2,d1)".into());
+        let sel = [Some(ga.clone()), Some(gb.clone())];
+        let vu = big.partial_union_graph(sophia_api::term::matcher::GraphNameMatcher::matcher_ref(&sel));
+        res.push(isomorphic_graphs(&vu, &g2).unwrap());
+        names.push("graphs PartialUnionGraph-view/HashSet (d1,d2)".into());
+        res.push(isomorphic_graphs(&g2, &vu).unwrap());
+        names.push("graphs PartialUnionGraph-view/HashSet (d2,d1)".into());
+        let wd = sophia_api::graph::Graph::as_dataset(&g1);
+        res.push(isomorphic_datasets(&wd, &h2).unwrap());
+        names.push("GraphAsDataset/HashSet (d1,d2)".into());
+        res.push(isomorphic_datasets(&h2, &wd).unwrap());
+        names.push("GraphAsDataset/HashSet (d2,d1)".into());
     }
     (res, names)
+}
+
+/// a term differing from `t` in one ground detail (None if `t` has no ground part)
+fn nuance(rng: &mut Rng, t: &ST) -> Option<ST> {
+    match t {
+        SimpleTerm::Iri(i) => Some(iri(&format!("{}x", i.as_str()))),
+        SimpleTerm::LiteralLanguage(l, tag) => Some(if rng.chance(1, 2) { lit_lang(l, if tag.as_str().eq_ignore_ascii_case("en") { "fr" } else { "en" }) } else { lit_lang(&format!("{l}x"), tag.as_str()) }),
+        SimpleTerm::LiteralDatatype(l, dt) => Some(if rng.chance(1, 2) { lit_dt(l, &format!("{}x", dt.as_str())) } else { lit_dt(&format!("{l}x"), dt.as_str()) }),
+        SimpleTerm::Triple(tr) => {
+            let order: Vec<usize> = { let mut o = vec![0, 1, 2]; rng.shuffle(&mut o); o };
+            for k in order {
+                if let Some(x) = nuance(rng, &tr[k]) {
+                    let mut c = (**tr).clone();
+                    c[k] = x;
+                    return Some(SimpleTerm::Triple(Box::new(c)));
+                }
+            }
+            None
+        }
+        _ => None,
+    }
 }
 
 fn emit(tr: &mut Trace, kind: &str, d1: &[Q], d2: &[Q]) {
@@ -177,6 +230,17 @@ pub fn main(args: &[String]) {
                 m[qi].0[pos] = iri("http://ex/other");
                 if (0..m.len()).all(|j| j == qi || !same_quad(&m[j], &m[qi])) {
                     emit(&mut tr, "ground-changed", &d, &m);
+                }
+            }
+            // a ground term changed only slightly: the language tag, the datatype or the lexical form of a literal, the last character
+            // of an IRI - at top level or inside a quoted triple, in a statement with or without blank nodes
+            let mut m = r.clone();
+            let qi = rng.below(m.len());
+            let pos = rng.below(3);
+            if let Some(t2) = nuance(&mut rng, &m[qi].0[pos]) {
+                m[qi].0[pos] = t2;
+                if (0..m.len()).all(|j| j == qi || !same_quad(&m[j], &m[qi])) {
+                    emit(&mut tr, "ground-nuance", &d, &m);
                 }
             }
             // graph name dropped / added
